@@ -94,7 +94,16 @@ pub fn scenario(seed: u64, pool: &[Enr], rep: &mut Report) {
             // not to be served), and may lose a member again while the candidate keeps waiting.
             let in_bucket: Vec<usize> = stored.iter().enumerate().filter(|(_, (k, _))| kb::log2(k, &local) == *d).map(|(i, _)| i).collect();
             if in_bucket.len() == 16 && pool_i < pool.len() && rng.chance(2, 3) {
-                let key = kb::id_at_distance(&mut rng, &local, *d);
+                // a key that is not in the table yet (low buckets have few possible keys)
+                let mut key = kb::id_at_distance(&mut rng, &local, *d);
+                let mut tries = 0;
+                while stored.iter().any(|(k, _)| *k == key) && tries < 40 {
+                    key = kb::id_at_distance(&mut rng, &local, *d);
+                    tries += 1;
+                }
+                if stored.iter().any(|(k, _)| *k == key) {
+                    continue;
+                }
                 let enr = pool[(pool_start + pool_i) % pool.len()].clone();
                 pool_i += 1;
                 let r = rig.discv5.with_kbuckets(|t| t.write().insert_or_update(&kb::key(&key), enr.clone(), kb::status(true, false)));
@@ -255,6 +264,26 @@ pub fn scenario(seed: u64, pool: &[Enr], rep: &mut Report) {
                     rep.violation("C14:record-twice", "a record was returned twice".into(), w.clone());
                 }
                 if !eligible.contains(r) {
+                    if std::env::var("DV5_DEBUG").is_ok() {
+                        let wherev: Vec<String> = rig.discv5.with_kbuckets(|t| {
+                            let t = t.read();
+                            let mut out = Vec::new();
+                            for (bi, b) in t.buckets_iter().enumerate() {
+                                for n in b.iter() {
+                                    if rlp_ref::encode_record(&n.value) == **r {
+                                        out.push(format!("stored in bucket {bi} key {}", hx(&n.key.preimage().raw()[..4])));
+                                    }
+                                }
+                                if let Some(p) = b.pending() {
+                                    if rlp_ref::encode_record(p.value()) == **r {
+                                        out.push(format!("pending in bucket {bi}"));
+                                    }
+                                }
+                            }
+                            out
+                        });
+                        eprintln!("offending record: {:?}; in harness list: {}; requested {:?}", wherev, stored.iter().any(|(_, rec)| rec == *r), want_d);
+                    }
                     let requester_rec = eligible_all.iter().any(|(k, rec)| *k == rid && rec == *r);
                     rep.violation(if requester_rec { "C14:requester-record-returned" } else { "C14:off-distance-record" }, "a returned record is not a table entry at a requested distance (or is the requester's own)".into(), w.clone());
                 }
